@@ -147,24 +147,44 @@ func newRouter(d *dialect.Dialect, version gomavlib.Version, outKey *frame.V2Key
 	if err := rt.node.Initialize(); err != nil {
 		return nil, err
 	}
-	var chA *gomavlib.Channel
+	var chA, chB *gomavlib.Channel
 	opened := 0
 	for opened < 2 {
 		if o, ok := (<-rt.node.Events()).(*gomavlib.EventChannelOpen); ok {
 			opened++
 			if o.Channel.Endpoint().Conf().(gomavlib.EndpointCustom).ReadWriteCloser == rt.a {
 				chA = o.Channel
+			} else {
+				chB = o.Channel
 			}
 		}
 	}
 	go func() {
 		defer close(rt.done)
+		n := 0
 		for evt := range rt.node.Events() {
 			if ef, ok := evt.(*gomavlib.EventFrame); ok && ef.Channel == chA {
 				if onFrom != nil {
 					onFrom(rt.node, ef.Frame)
 				}
-				_ = rt.node.WriteFrameExcept(ef.Channel, ef.Frame)
+				// the three ways of forwarding, in rotation; what B receives is the same
+				handed := ef.Frame.GetMessage() // the decoded message value the application was handed with the event
+				n++
+				switch n % 3 {
+				case 0:
+					_ = rt.node.WriteFrameExcept(ef.Channel, ef.Frame)
+				case 1:
+					_ = rt.node.WriteFrameTo(chB, ef.Frame)
+				case 2:
+					_ = rt.node.WriteFrameAll(ef.Frame)
+				}
+				// once the write call has returned the frame is the application's again: it wipes the message it was handed
+				// (a pooled struct reused for the next event); what was forwarded is what the frame held at the time of the call
+				if _, raw := handed.(*message.MessageRaw); handed != nil && !raw {
+					if v := reflect.ValueOf(handed); v.Kind() == reflect.Ptr && v.Elem().CanSet() {
+						v.Elem().Set(reflect.Zero(v.Elem().Type()))
+					}
+				}
 			}
 		}
 	}()
